@@ -10,7 +10,7 @@ static long milli(double err, double bound) {
     return (long)std::min(1e9, std::ceil(err / bound * 1000.0));
 }
 
-static void fir_event(Json& js, const char* type, int n, int w1, int w2, const arr_real* custom) {
+static void fir_event(Json& js, const char* type, int n, int w1, int w2, const arr_real* custom, bool masks = true) {
     arr_real h;
     const FilterType ft = std::string(type) == "low" ? FilterType::Low : std::string(type) == "high" ? FilterType::High
                           : std::string(type) == "bandpass" ? FilterType::Bandpass : FilterType::Bandstop;
@@ -66,7 +66,7 @@ static void fir_event(Json& js, const char* type, int n, int w1, int w2, const a
     if (N > 0) {
         ftv = (int)firtype(h);
     }
-    js.begin("Fir").str("type", type).num("n", n).num("w1", w1).num("w2", w2).boolean("custom", custom != nullptr).str("o", o)
+    js.begin("Fir").str("type", type).num("n", n).num("w1", w1).num("w2", w2).boolean("custom", custom != nullptr).boolean("masks", masks).str("o", o)
       .num("len", N).num("sym_milli", milli(asym, 4 * EPS * (peak + 1e-300))).num("firtype", ftv)
       .num("dc_milli", milli((double)fabsl(dc - 1), 64.0 * (n + 2) * EPS)).num("nyq_milli", milli(std::fabs((double)fabsl(nyq) - 1), 64.0 * (n + 2) * EPS))
       .num("hw", hw).num("pass_ppm", (long)std::min(1e9, pass_dev * 1e6)).num("stop_ppm", (long)std::min(1e9, stop_max * 1e6)).end();
@@ -99,6 +99,10 @@ static void run_fir(Json& js, vh::Rng& rng, int a, int b) {
                     const int good = (n % 2 == 1 && (t == 1 || t == 3)) ? n + 2 : n + 1;
                     const arr_real wgood = window::hann(good);
                     fir_event(js, TY[t], n, w1, w2, &wgood);
+                    // a window that is not symmetric about its centre (periodic variants): the design must stay linear phase
+                    // and keep its unit gain; the Hamming masks are not claimed for it
+                    const arr_real wper = (n % 2) ? window::hamming(good, false) : window::blackman(good, false);
+                    fir_event(js, TY[t], n, w1, w2, &wper, false);
                     for (int dl : {-2, -1, 1, 2, 3}) {
                         const int wl = good + dl;
                         if (wl < 3) {
